@@ -180,6 +180,27 @@ def do_cli(r, tmp):
         return {'args': seen, 'options': 'ERR', 'error': repr(ex)}
 
 
+def do_coerce(r):
+    """{"kind": "coerce", "sections": V, "queries": [[section, key, "v"|"b"|"d", default], ...]} on a real LanguageConfig"""
+    from nunavut.lang import LanguageConfig
+    cfg = LanguageConfig()
+    cfg.update(from_v(r['sections']))
+    out = []
+    for sec, k, kind, d in r['queries']:
+        try:
+            if kind == 'v':
+                out.append(['ok', cfg.get_config_value(sec, k, d)])
+            elif kind == 'b':
+                out.append(['ok', cfg.get_config_value_as_bool(sec, k, d)])
+            else:
+                out.append(['ok', to_v(cfg.get_config_value_as_dict(sec, k, None if d is None else from_v(d)))])
+        except KeyError:
+            out.append(['keyerror'])
+        except TypeError:
+            out.append(['typeerror'])
+    return {'results': out}
+
+
 def main():
     doc = json.load(sys.stdin)
     outs = []
@@ -192,6 +213,8 @@ def main():
                     outs.append(do_proc(r, tmp))
                 elif r['kind'] == 'cli':
                     outs.append(do_cli(r, tmp))
+                elif r['kind'] == 'coerce':
+                    outs.append(do_coerce(r))
                 elif r['kind'] == 'builtin':
                     outs.append({'sections': to_v(LanguageContextBuilder(include_experimental_languages=True).config.sections())})
                 else:
